@@ -139,4 +139,13 @@ def reachable_mutables(root):
             pass
         elif hasattr(o, "__dict__"):
             todo.extend(vars(o).values())
+            # class-level data attributes of the package's own classes are reachable from every instance
+            # (a mutable default at class level is shared by all objects that never rebind it)
+            for cls in type(o).__mro__:
+                if str(getattr(cls, "__module__", "")).startswith("vrpqubo"):
+                    for name, v in vars(cls).items():
+                        if name.startswith("__") or callable(v) or isinstance(v, (property, staticmethod, classmethod)):
+                            continue
+                        if isinstance(v, (list, dict, set, np.ndarray)) or (hasattr(v, "__dict__") and not isinstance(v, type)):
+                            todo.append(v)
     return seen
